@@ -12,18 +12,18 @@ import (
 
 // C10Case is one cell of the guard table.
 type C10Case struct {
-	PatchPkg  string   `json:"patch_pkg"`          // "", "a", "b" (file is package a)
-	PkgLine   string   `json:"pkg_line"`           // "ctx" | "minus" (package clause on a context line or as -/+ pair)
-	PatchImps []string `json:"patch_imps"`         // per guarded path: absent|unnamed|named|metavar|dot|blank
-	FileImps  []string `json:"file_imps"`          // per guarded path: absent|unnamed|same|other|dot|blank
-	Layout    string   `json:"layout"`             // alone|group|blocks
-	ImpLine   string   `json:"imp_line"`           // ctx|minus
-	Body      string   `json:"body"`               // expr|stmt|decl
-	MetaClash string   `json:"meta_clash"`         // "", identifier, expression: a metavariable named like the patch's package clause is declared (and unused)
-	Spelling  string   `json:"spelling,omitempty"` // how the file spells the guarded paths: "" (interpreted string) | raw | escaped
-	CLI       bool     `json:"cli,omitempty"`      // run through the command line (in place) instead of the library API
-	Seq       string   `json:"seq,omitempty"`      // two-change cases: what the earlier change does to the guarded clause
-	Name0     string   `json:"name0"`              // literal name used for path 0 on the patch side (different from / equal to the path's base name)
+	PatchPkg  string   `json:"patch_pkg"`           // "", "a", "b" (file is package a)
+	PkgLine   string   `json:"pkg_line"`            // "ctx" | "minus" (package clause on a context line or as -/+ pair)
+	PatchImps []string `json:"patch_imps"`          // per guarded path: absent|unnamed|named|metavar|dot|blank
+	FileImps  []string `json:"file_imps"`           // per guarded path: absent|unnamed|same|other|dot|blank
+	Layout    string   `json:"layout"`              // alone|group|blocks
+	ImpLine   string   `json:"imp_line"`            // ctx|minus
+	Body      string   `json:"body"`                // expr|stmt|decl
+	MetaClash string   `json:"meta_clash"`          // "", identifier, expression: a metavariable named like the patch's package clause is declared (and unused)
+	Spelling  string   `json:"spelling,omitempty"`  // how the file spells the guarded paths: "" (interpreted string) | raw | escaped
+	CLI       bool     `json:"cli,omitempty"`       // run through the command line (in place) instead of the library API
+	Seq       string   `json:"seq,omitempty"`       // two-change cases: what the earlier change does to the guarded clause
+	Name0     string   `json:"name0"`               // literal name used for path 0 on the patch side (different from / equal to the path's base name)
 	FileName  string   `json:"file_name,omitempty"` // name of the target file ("" = a.go)
 	Patch     string   `json:"patch"`
 	File      string   `json:"file"`
@@ -379,7 +379,7 @@ func c10Run(env *core.Env, ci any) core.Outcome {
 	if c.CLI {
 		sb := newSandbox(env, "c10", map[string]string{"t/" + fname: c.File, "g.patch": c.Patch})
 		r := sb.run(false, "t", []string{"-p", sb.path("g.patch"), fname}, "")
-		res, err = []byte(sb.read("t/" + fname)), nil
+		res, err = []byte(sb.read("t/"+fname)), nil
 		if r.Exit != 0 || r.Panic != "" {
 			err = fmt.Errorf("exit %d: %s %s", r.Exit, r.Stderr, r.Panic)
 		}
